@@ -4,29 +4,20 @@
 -/
 import Masscanned.Proofs.C16.Glue
 import Masscanned.Model.Dispatch
+import Masscanned.Proofs.DnsFix.Raw
 namespace Masscanned.C01
 open Masscanned
 
 /-! ### DNS: at most 7 output bytes per input byte -/
 
-theorem dnsReadQ_len : ∀ (d acc : Bytes) (q : DnsQ) (rest : Bytes), dnsReadQ acc d = some (q, rest) →
+/-- the label-wise question reader consumes exactly the name it returns plus 4 octets (type, class) -/
+theorem dnsReadQ_len (d acc : Bytes) (q : DnsQ) (rest : Bytes) (h : dnsReadQ acc d = some (q, rest)) :
     q.name.length + 4 + rest.length = acc.length + d.length ∧ 1 ≤ q.name.length := by
-  intro d
-  induction d with
-  | nil => intro acc q rest h; simp [dnsReadQ] at h
-  | cons b t ih =>
-    intro acc q rest h
-    rw [dnsReadQ] at h
-    split at h
-    · split at h
-      · cases h
-      · simp only [Option.some.injEq, Prod.mk.injEq] at h
-        obtain ⟨rfl, rfl⟩ := h
-        simp only [List.length_append, List.length_cons, List.length_nil, List.length_drop]
-        omega
-    · have := ih _ _ _ h
-      simp only [List.length_append, List.length_cons, List.length_nil] at this ⊢
-      omega
+  obtain ⟨n, t, hraw, hn, hd, ht, hr, _, _⟩ := DnsFix.dnsReadQ_some h
+  have := hraw.length_pos
+  rw [hn, hd, hr]
+  simp only [List.length_append, List.length_drop]
+  omega
 
 def ipLen16 (o : Option Ip) : Prop := ∀ ip, o = some ip → ip.bytes.length ≤ 16
 
